@@ -11,6 +11,7 @@ from logref import R, antiderivative_coeffs, fmp, magnitude_coeffs
 
 u = mpf(2) ** -53
 E12 = mpf(10) ** -12
+UNDERFLOW = mpf(2) ** -1000
 
 
 _LOG = {}
@@ -133,7 +134,8 @@ class Piece:
 
     def _tol_uncached(self, t, K):
         a = self.A(t)
-        tol = K * u * a
+        # + underflow floor: values below 2^-960 are outside the property's domain (subnormal results lose bits)
+        tol = K * u * a + UNDERFLOW
         if self.kind == "log":
             L = self.L(t)
             ulp = mpf(math.ulp(float(L))) if L != 0 else mpf(0)
